@@ -32,6 +32,18 @@ PROPS = {
             "key handles longer than 255 bytes (outside the property's quantifier)",
         ],
     },
+    "C18": {
+        "units": ["c18"],
+        "kani_complete": [],
+        "kani_bounded_quick": [],
+        "kani_bounded_thorough": [],
+        "design_ref": "DESIGN.md section 5 / C18",
+        "not_covered": [
+            "the inherent methods are uninterpreted functions of (state, request): what they do is the subject of "
+            "C02-C11, not of C18",
+            "async scheduling (rule R1 reads the forwarding bodies sequentially)",
+        ],
+    },
     "C15": {
         "units": ["hid", "u2f"],
         "kani_complete": [],
